@@ -305,9 +305,11 @@ def run(ctx):
     return vlib.finish(ctx, 'proof', cov, [
         'the linter (which violations are reported, at which locations), OPA formatter and directory-package-mismatch are oracles of '
         'the loop model; their results are tabulated from the real code for the correspondence',
-        'loop_terminates is conditional on the progress hypothesis; it is discharged unconditionally only for use-assignment-operator '
-        'alone and non-raw-regex-pattern alone (measures: lone "=" / double quotes), and per fix for no-whitespace-comment under the '
-        'rule specification nwc_reported; combinations of rules and the formatter are covered by the harness only',
+        'loop_terminates is conditional on the progress hypothesis; it is discharged in Coq for every combination of the three text '
+        'rules (text_rules_terminate: measure = double quotes + lone "=" + tight "#"; the only assumption on the linter is that '
+        'no-whitespace-comment violations point at a "#" followed by a non-blank, which the C11 correspondence validates on every '
+        'reported violation), and unconditionally for use-assignment-operator alone and non-raw-regex-pattern alone; combinations '
+        'with the formatter and directory-package-mismatch are covered by the harness only',
         'the order in which the linter returns violations of different files is a permutation argument of the correspondence',
         'names chosen after a rename conflict (renameCandidate) are not modelled here (C13)',
         'regal fix (cmd/fix.go) writes the provider contents to disk after Fixer.Fix returned without error: not driven here',
